@@ -41,10 +41,17 @@ func init() {
 		case "C07", "C08", "C10":
 			lvl = "exploration"
 		}
+		mods := []string{}
+		factsOK := false
+		switch id {
+		case "C10":
+			mods = []string{"Verif.Properties.C10"}
+			factsOK = true
+		}
 		reg(&PropDef{
-			ID: id, Level: lvl, FactsOK: false,
-			LeanModules: []string{},
-			Streams:     []func(*Ctx) StreamResult{flattenStream.Run},
+			ID: id, Level: lvl, FactsOK: factsOK,
+			LeanModules: mods,
+			Streams:     flatStreams(id),
 			Assumptions: flatAssume,
 		})
 	}
@@ -93,4 +100,20 @@ func init() {
 			"a response is a $ref when its JSON has a string-valued $ref key",
 		},
 	})
+}
+
+// flatStreams: the whole-pipeline stream plus the unit streams that tie the modelled pieces to the code.
+func flatStreams(id string) []func(*Ctx) StreamResult {
+	ss := []func(*Ctx) StreamResult{flattenStream.Run}
+	switch id {
+	case "C03":
+		ss = append(ss, uniqifyStream.Run)
+	case "C06":
+		ss = append(ss, removeUnusedStream.Run)
+	case "C07":
+		ss = append(ss, sortStream.Run)
+	case "C09":
+		ss = append(ss, removeUnusedStream.Run)
+	}
+	return ss
 }
